@@ -71,8 +71,51 @@ fn hunt_lang(ignore_kf1: bool) -> ! {
     std::process::exit(0)
 }
 
+/// Bounded search for a soundness failure (C01/C03/C04/C07), used only AFTER a proof obligation has failed: all sets of 1..=2 words of
+/// length <= 2 over {a, B, 1, ' ', '-'} x all 2^8 subsets of {digits, non-digits, words, non-words, spaces, non-spaces, ignore-case,
+/// repetitions}; the expression must compile and match every test case in full.  Prints `failing input: FLAGS -- words` and exits 1.
+fn hunt_sound() -> ! {
+    let alphabet = ['a', 'B', '1', ' ', '-'];
+    let mut words: Vec<String> = vec![];
+    for a in alphabet { words.push(a.to_string()); }
+    for a in alphabet { for b in alphabet { words.push(format!("{a}{b}")); } }
+    let flags = ["--digits", "--non-digits", "--words", "--non-words", "--spaces", "--non-spaces", "--ignore-case", "--repetitions"];
+    let mut sets: Vec<Vec<String>> = vec![];
+    for i in 0..words.len() { sets.push(vec![words[i].clone()]); for j in i + 1..words.len() { sets.push(vec![words[i].clone(), words[j].clone()]); } }
+    let mut tried = 0u64;
+    for mask in 0u32..256 {
+        for set in &sets {
+            tried += 1;
+            let mut b = RegExpBuilder::from(set);
+            if mask & 1 != 0 { b.with_conversion_of_digits(); }
+            if mask & 2 != 0 { b.with_conversion_of_non_digits(); }
+            if mask & 4 != 0 { b.with_conversion_of_words(); }
+            if mask & 8 != 0 { b.with_conversion_of_non_words(); }
+            if mask & 16 != 0 { b.with_conversion_of_whitespace(); }
+            if mask & 32 != 0 { b.with_conversion_of_non_whitespace(); }
+            if mask & 64 != 0 { b.with_case_insensitive_matching(); }
+            if mask & 128 != 0 { b.with_conversion_of_repetitions(); }
+            let out = b.build();
+            let ok = match Regex::new(&out) {
+                Ok(re) => set.iter().all(|c| re.find(c).map_or(false, |m| m.start() == 0 && m.end() == c.len())),
+                Err(_) => false,
+            };
+            if !ok {
+                let fl: Vec<&str> = (0..8).filter(|k| mask & (1 << k) != 0).map(|k| flags[k]).collect();
+                let ws: Vec<String> = set.iter().map(|w| format!("'{w}'")).collect();
+                println!("failing input: {} -- {}", fl.join(" "), ws.join(" "));
+                println!("regex: {out}");
+                std::process::exit(1)
+            }
+        }
+    }
+    println!("hunt-sound: {tried} builds tried, none fails");
+    std::process::exit(0)
+}
+
 fn main() {
     let args: Vec<String> = std::env::args().skip(1).collect();
+    if args.first().map(|a| a == "hunt-sound").unwrap_or(false) { hunt_sound() }
     if args.first().map(|a| a == "hunt-lang").unwrap_or(false) { hunt_lang(args.iter().any(|a| a == "--ignore-kf1")) }
     let split = args.iter().position(|a| a == "--").expect("usage: ... -- TESTCASE...");
     let (opts, cases) = (&args[..split], &args[split + 1..]);
